@@ -5,7 +5,7 @@
    agree_multichar): Model/SentenceSpec.v.  Model (get_eos, split, split_with, accept, candidates, plevel): Model/Sentence.v. *)
 From Coq Require Import String.
 From Coq Require Import List NArith ZArith Bool Arith.
-From SudachiVerif Require Import Model.Sentence Model.SentenceSpec Proofs.SentenceProofs.
+From SudachiVerif Require Import Model.Sentence Model.SentenceSpec Proofs.SentenceProofs Proofs.SentenceRegexProofs.
 Import ListNotations.
 
 (* ===================== obligations on the regenerated facts ===================== *)
@@ -25,15 +25,8 @@ Proof. vm_compute. reflexivity. Qed.
 
 (* the regex shapes and the control flow the hand matchers / the model were written for *)
 Open Scope string_scope.
-Fact regex_shapes_as_modelled : F.regex_shapes =
-  [ ("SENTENCE_BREAKER", "([{}]|{}+|(?<![{}])[{}](?![{}{}]))[{}{}]*|{}", ["PERIODS"; "CDOTS"; "ALPHABET_OR_NUMBER"; "DOT"; "ALPHABET_OR_NUMBER"; "COMMA"; "DOT"; "PERIODS"; "BR_TAG"]);
-    ("ITEMIZE_HEADER", "^([{}])([{}])$", ["ALPHABET_OR_NUMBER"; "DOT"]);
-    ("SPACES", ".+\\s+", []);
-    ("PARENTHESIS", "([{}])|([{}])", ["OPEN_PARENTHESIS"; "CLOSE_PARENTHESIS"]);
-    ("PROHIBITED_BOS", "\\A([{}{}{}])+", ["CLOSE_PARENTHESIS"; "COMMA"; "PERIODS"]);
-    ("QUOTE_MARKER", "(！|？|\\!|\\?|[{}])(と|っ|です)", ["CLOSE_PARENTHESIS"]);
-    ("EOS_ITEMIZE_HEADER", "([{}])([{}])\\z", ["ALPHABET_OR_NUMBER"; "DOT"]) ].
-Proof. vm_compute. reflexivity. Qed.
+(* the regex literals themselves are no longer compared as strings: they are parsed into ASTs and the hand matchers are
+   proved equal to the generic matcher on them (obligation patterns_parse_as_expected, theorem 9 below) *)
 
 (* the only pattern that runs on the backtracking VM has no step limit (otherwise get_eos fails on long windows) *)
 Fact fancy_patterns_unlimited : F.fancy_backtrack_limits = [ ("SENTENCE_BREAKER", "usize::MAX") ].
@@ -223,3 +216,26 @@ Theorem C16_ends_after_terminator_b_sound :
   forall t, ends_after_terminator_b t = true -> ends_with_terminator t.
 Proof. exact ends_after_terminator_b_sound. Qed.
 Print Assumptions C16_ends_after_terminator_b_sound.
+
+(* 9. The hand matchers of the model are the regex patterns of the source: every Regex::new literal of
+      sentence_detector.rs is parsed into a regex AST on each run (Generated/SentenceRegexFacts.v) and, for ALL texts, each
+      hand matcher equals the generic backtracking matcher (Model/SentenceRegex.v: leftmost start, ordered alternatives,
+      greedy repetition with backtracking, possessive groups, one-character look-around, anchors) on that AST. *)
+(* the regenerated ASTs are the ones the proofs were written for (classes, bounds and tags stay symbolic: they are read
+   from Generated/SentenceFacts.v on both sides) *)
+Fact patterns_parse_as_expected : patterns_as_expected.
+Proof. repeat split; reflexivity. Qed.
+
+Fact br_tags_prefix_free : tags_ok_b F.BR_TAGS = true.
+Proof. vm_compute. reflexivity. Qed.
+
+Fact repetition_bounds_positive : (1 <=? F.BR_MIN) && (1 <=? F.CDOTS_MIN) = true.
+Proof. vm_compute. reflexivity. Qed.
+
+Theorem C16_matchers_agree_with_patterns : matchers_agree_statement.
+Proof.
+  exact (matchers_agree patterns_parse_as_expected br_tags_prefix_free
+           (proj1 (Nat.leb_le _ _) (proj1 (proj1 (andb_true_iff _ _) repetition_bounds_positive)))
+           (proj1 (Nat.leb_le _ _) (proj2 (proj1 (andb_true_iff _ _) repetition_bounds_positive)))).
+Qed.
+Print Assumptions C16_matchers_agree_with_patterns.
